@@ -23,6 +23,9 @@ theorem ax_cos_sin (a : ℝ) : cos a * cos a + sin a * sin a = 1 := by
 theorem ax_cos_neg (a : ℝ) : cos (-a) = cos a := cos_neg a
 theorem ax_sin_neg (a : ℝ) : sin (-a) = -sin a := sin_neg a
 theorem ax_cos_zero : cos 0 = 1 := cos_zero
+/-- numpy's exp of a complex number, read by PyVC-U as a pair of reals: exp(a + ib) = exp a cos b + i exp a sin b -/
+theorem ax_cexp_re (a b : ℝ) : (Complex.exp ⟨a, b⟩).re = exp a * cos b := Complex.exp_re ⟨a, b⟩
+theorem ax_cexp_im (a b : ℝ) : (Complex.exp ⟨a, b⟩).im = exp a * sin b := Complex.exp_im ⟨a, b⟩
 theorem ax_sin_zero : sin 0 = 0 := sin_zero
 theorem ax_exp_strict_mono (a b : ℝ) : (a < b ↔ exp a < exp b) ∧ (a = b ↔ exp a = exp b) :=
   ⟨exp_lt_exp.symm, ⟨fun h => by rw [h], fun h => exp_injective h⟩⟩
@@ -48,6 +51,8 @@ end PyVC
 #print axioms PyVC.ax_cos_neg
 #print axioms PyVC.ax_sin_neg
 #print axioms PyVC.ax_cos_zero
+#print axioms PyVC.ax_cexp_re
+#print axioms PyVC.ax_cexp_im
 #print axioms PyVC.ax_sin_zero
 #print axioms PyVC.ax_exp_strict_mono
 #print axioms PyVC.ax_log_strict_mono
